@@ -401,9 +401,6 @@ func (vc *VC) bindLoops() {
 		}
 	}
 	vc.hdrSrc = hdrLoop
-	if vc.con == nil {
-		return
-	}
 	textOf := func(n ast.Node) string {
 		switch l := n.(type) {
 		case *ast.ForStmt:
@@ -415,6 +412,14 @@ func (vc *VC) bindLoops() {
 			return "range " + types.ExprString(l.X)
 		}
 		return ""
+	}
+	if vc.con == nil {
+		for _, h := range vc.loopHeads {
+			if l := hdrLoop[h]; l != nil {
+				vc.bareLoops = append(vc.bareLoops, textOf(l))
+			}
+		}
+		return
 	}
 	// ordinal among loops with equal text, in source order
 	sort.Slice(srcLoops, func(i, j int) bool { return srcLoops[i].Pos() < srcLoops[j].Pos() })
@@ -448,6 +453,7 @@ func (vc *VC) bindLoops() {
 			}
 		}
 	}
+	var unbound []*LoopSpec
 	for _, ls := range vc.con.Loops {
 		found := false
 		for _, x := range vc.loopSpecs {
@@ -479,7 +485,31 @@ func (vc *VC) bindLoops() {
 			vc.notes = append(vc.notes, fmt.Sprintf("loop spec %q bound to the similar loop %q", ls.Key, textOf(hdrLoop[best])))
 			continue
 		}
+		unbound = append(unbound, ls)
+	}
+	// a loop whose header was rewritten beyond recognition (`range n.Content` -> `range elems`): when exactly
+	// one contract loop and exactly one source loop of the same form are left over, they belong together
+	if len(unbound) == 1 {
+		var free []int
+		for _, h := range vc.loopHeads {
+			if l := hdrLoop[h]; l != nil && vc.loopSpecs[h] == nil {
+				free = append(free, h)
+			}
+		}
+		if len(free) == 1 && strings.HasPrefix(textOf(hdrLoop[free[0]]), "range ") == strings.HasPrefix(unbound[0].Key, "range ") {
+			vc.loopSpecs[free[0]] = unbound[0]
+			vc.notes = append(vc.notes, fmt.Sprintf("loop spec %q bound to the only loop without contract, %q", unbound[0].Key, textOf(hdrLoop[free[0]])))
+			unbound = nil
+		}
+	}
+	for _, ls := range unbound {
 		vc.notes = append(vc.notes, fmt.Sprintf("loop spec %q not bound to any loop", ls.Key))
+	}
+	// texts of the loops that carry no contract (the ledger remembers those of the pinned tree)
+	for _, h := range vc.loopHeads {
+		if l := hdrLoop[h]; l != nil && vc.loopSpecs[h] == nil {
+			vc.bareLoops = append(vc.bareLoops, textOf(l))
+		}
 	}
 }
 
